@@ -218,3 +218,119 @@ Print Assumptions C11_calc_index_translated.
 Print Assumptions C11_get_translated.
 Print Assumptions C11_set_translated.
 Print Assumptions C11_swap_translated.
+
+(* ---- phase 4: the constructor, Fix, ReadFrom, WriteTo, Len and Raw are TRANSLATED from level/bitstorage.go
+   by tools/gotrans/c11.go on every run (Gen/C11gen.v: the struct as the record gbs - a slice field as visible
+   part + spare capacity -, field writes as record updates, every run-time panic an explicit guard, ReadFrom a
+   Base.Dec term whose argument is the prior state of the destination).  inj st sp = the record that holds
+   the model state st with spare capacity sp; abs = the model state of a record. *)
+From GoMC Require Model.C06_syntax Model.C11_syntax Gen.C11gen Proofs.C06_tie_r Proofs.C11_tie_io.
+
+(* calcBitStorageSize with its run-time panic (divide by zero when bits > 64), every width *)
+Theorem C11_calc_size_panics_translated : forall b n : Z, C11_tie_io.in_int n ->
+  C11gen.c11_calcBitStorageSize b n =
+  match calc_size b n with Some r => C11_syntax.GRet r | None => C11_syntax.GPanic C11gen.GV_runtime end.
+Proof. exact C11_tie_io.tie_calc. Qed.
+
+(* NewBitStorage, every width (negative, 0, > 64 included), every length inside int arithmetic, nil or any
+   raw longs: the same record, or a panic with the same value (newBitStorageErr{len(data), wanted}) *)
+Theorem C11_new_translated : forall (bts n : Z) (raw : option (list N)), C11_tie_io.in_int n ->
+  C11gen.c11_NewBitStorage bts n (option_map (map Z.of_N) raw) =
+  match bs_new bts n raw with
+  | ROk st => C11_syntax.GRet (C11_tie_io.inj st [])
+  | RPanic w => C11_syntax.GPanic (C11_tie_io.new_panic bts n raw w)
+  end.
+Proof. exact C11_tie_io.tie_New. Qed.
+
+(* Fix, every storage (well formed or not, any spare capacity), every width: the same fields afterwards
+   (assigned BEFORE the size check), nil / the same error value / a run-time panic *)
+Theorem C11_fix_translated : forall (st : bstore) (sp : list Z) (bts : Z), C11_tie_io.in_int (blen st) ->
+  C11gen.c11_BitStorage_Fix (C11_tie_io.inj st sp) bts =
+  (C11_tie_io.inj (fst (bs_fix st bts)) sp, C11_tie_io.fix_out st bts (snd (bs_fix st bts))).
+Proof. exact C11_tie_io.tie_Fix. Qed.
+
+(* ReadFrom into ANY prior destination record (any longs, any spare capacity, any field values - not only
+   images of model states) on ANY byte string: same outcome class, same error class, same bytes left, same
+   count; the decoded longs are stored IN b.data (reused backing array when cap(b.data) >= Len, a fresh one
+   otherwise) and no other field changes *)
+Theorem C11_read_translated : forall (b : C11gen.gbs) (s : list N), all_bytes s ->
+  run_flat (C11gen.c11_BitStorage_ReadFrom C06_tie_r.varint_rd b) s =
+  match run_flat (bs_read (C11_tie_io.abs b)) s with
+  | FOk (st', n) rest =>
+      FOk (C11gen.set_g_data b (map Z.of_N (data st'),
+                                C11_tie_io.spare_after b (Z.of_N (lenN (data st')))), Z.of_N n) rest
+  | FErr e => FErr e
+  | FPanic w => FPanic w
+  | FFuel => FFuel
+  end.
+Proof. exact C11_tie_io.tie_Read. Qed.
+
+(* WriteTo under a writer that accepts everything: the model's byte image and count, no error *)
+Theorem C11_write_translated : forall (st : bstore) (sp : list Z),
+  Forall (fun l => l < 2 ^ 64) (data st) -> lenN (data st) < 2 ^ 59 ->
+  C11gen.c11_BitStorage_WriteTo (Some (C11_tie_io.inj st sp)) =
+  (Z.of_N (snd (bs_write st)), 0, map Z.of_N (fst (bs_write st))).
+Proof. exact C11_tie_io.tie_Write. Qed.
+Theorem C11_write_nil_translated : C11gen.c11_BitStorage_WriteTo None = (1%Z, 0, [0%Z]).
+Proof. exact C11_tie_io.tie_Write_nil. Qed.
+
+(* Len and Raw are the projections *)
+Theorem C11_accessors_translated : forall (st : bstore) (sp : list Z),
+  C11gen.c11_BitStorage_Len (C11_tie_io.inj st sp) = blen st /\
+  C11gen.c11_BitStorage_Raw (Some (C11_tie_io.inj st sp)) = map Z.of_N (data st) /\
+  C11gen.c11_BitStorage_Raw None = [].
+Proof. intros st sp. split; [apply C11_tie_io.tie_Len|apply C11_tie_io.tie_Raw]. Qed.
+
+(* HEADLINE over translated code only: any history of the translated Get / Set / Swap (Gen/Funcs.v) run on
+   the record the translated NewBitStorage(b, n, nil) returns behaves as the checked array of n unsigned b-bit
+   integers that starts all zero - same values, same normal returns, same panics - and Raw() afterwards is
+   the Minecraft >= 1.16 packing of the array's final contents, Len() is n *)
+Theorem C11_array_semantics_translated : forall (bts n : Z) (ops : list aop) (b0 : C11gen.gbs),
+  (1 <= bts <= 63)%Z -> (0 <= n < 2 ^ 31)%Z -> Forall op_ints ops ->
+  C11gen.c11_NewBitStorage bts n None = C11_syntax.GRet b0 ->
+  let r := C11_tie_io.t_run b0 ops in
+  let sp := spec_run (Z.to_N bts) (repeat 0 (Z.to_nat n)) ops in
+  snd r = map C11_tie_io.erase (snd sp) /\
+  C11gen.c11_BitStorage_Raw (Some (fst r)) = map Z.of_N (pack (Z.to_N bts) (fst sp)) /\
+  C11gen.c11_BitStorage_Len (fst r) = n /\ length (fst sp) = Z.to_nat n.
+Proof. exact C11_tie_io.array_semantics_translated. Qed.
+
+(* HEADLINE over translated code only: translated WriteTo of a well-formed storage, translated ReadFrom of
+   that image (any bytes after it) into ANY destination of the same length, translated Fix with the width:
+   no error, exactly the image consumed, the count right, and the same storage (fields and longs) comes back *)
+Theorem C11_wire_roundtrip_translated : forall (st : bstore) (sp : list Z) (dm : bstore) (dsp : list Z) (rest : list N),
+  wf st -> lenN (data st) < 2 ^ 31 -> blen dm = blen st -> all_bytes rest ->
+  exists n img d' sp',
+    C11gen.c11_BitStorage_WriteTo (Some (C11_tie_io.inj st sp)) = (n, 0, img) /\ n = C06_syntax.zlen img /\
+    run_flat (C11gen.c11_BitStorage_ReadFrom C06_tie_r.varint_rd (C11_tie_io.inj dm dsp)) (map Z.to_N img ++ rest)
+      = FOk (d', n) rest /\
+    C11gen.c11_BitStorage_Fix d' (bits st) = (C11_tie_io.inj st sp', C11_syntax.GRet None) /\
+    C11gen.c11_BitStorage_Raw (Some (C11_tie_io.inj st sp')) = C11gen.c11_BitStorage_Raw (Some (C11_tie_io.inj st sp)).
+Proof. exact C11_tie_io.wire_roundtrip_translated. Qed.
+
+(* non-vacuity: the translated constructor accepts 5-bit / 13 values, a translated history runs on it, the
+   translated reader reuses a destination with enough capacity and allocates otherwise *)
+Example C11_translated_io_ex :
+  (exists b0, C11gen.c11_NewBitStorage 5 13 None = C11_syntax.GRet b0 /\
+     snd (C11_tie_io.t_run b0 [ASet 12 7; AGet 12; ASwap 0 32; AGet 13])%Z
+     = [C11_tie_io.TUnit; C11_tie_io.TRet 7; C11_tie_io.TPanic; C11_tie_io.TPanic]%Z) /\
+  C11gen.c11_NewBitStorage 5 13 (Some [1; 2; 3])%Z = C11_syntax.GPanic (C11gen.GV_newBitStorageErr 3 2) /\
+  C11gen.c11_NewBitStorage 65 13 None = C11_syntax.GPanic C11gen.GV_runtime /\
+  C11_tie_io.in_int 13 /\ wf ex_st /\ all_bytes [7; 7] /\
+  C11_tie_io.spare_after (C11gen.mkG [1; 2; 3]%Z [4; 5]%Z 0 0 0 0) 2 = [3; 4; 5]%Z /\
+  C11_tie_io.spare_after (C11gen.mkG [1; 2; 3]%Z [4; 5]%Z 0 0 0 0) 6 = [].
+Proof.
+  split; [eexists; split; [vm_compute; reflexivity|vm_compute; reflexivity]|].
+  repeat split; try (vm_compute; reflexivity); try (vm_compute; discriminate); try apply C11_ex_wf.
+  repeat constructor.
+Qed.
+
+Print Assumptions C11_calc_size_panics_translated.
+Print Assumptions C11_new_translated.
+Print Assumptions C11_fix_translated.
+Print Assumptions C11_read_translated.
+Print Assumptions C11_write_translated.
+Print Assumptions C11_write_nil_translated.
+Print Assumptions C11_accessors_translated.
+Print Assumptions C11_array_semantics_translated.
+Print Assumptions C11_wire_roundtrip_translated.
